@@ -2,6 +2,9 @@
 //! generators, the `Sub` trait tying a protocol tag to a concrete bva type, the run loop).
 //! Only bva's public API is used.
 
+#[macro_use]
+pub mod fmt_gen;
+pub use fmt_gen::FMT_RT_KEYS;
 use bva::{Bit, BitVector, Bv, Bvd, Bvf};
 use std::fmt::Write as _;
 use std::io::Write as _;
